@@ -582,8 +582,9 @@ class Eval:
                 a_ = tuple(self.fmt_args(e, env, depth))
                 w = ("write", anon_names(t, len(a_)) + ("\n" if mac == "writeln" else ""), a_)
                 helpers_ = [self._display_helper(x) for x in a_]
-                # `xs.iter().map(..).format(", ")` / `.join(", ")` printed through a `{}`: every element, a separator before all but the first
-                joined_ = [isinstance(x, tuple) and x[:1] == ("call",) and x[1] in ("Itertools::format", "Itertools::join") and len(x[2]) == 2
+                # `xs.iter().map(..).format(", ")` printed through a `{}`: every element, a separator before all but the first (a `join`ed String is a
+                # value and is folded by printers.flat)
+                joined_ = [isinstance(x, tuple) and x[:1] == ("call",) and x[1] == "Itertools::format" and len(x[2]) == 2
                            and isinstance(x[2][1], tuple) and x[2][1][:1] == ("lit",) and isinstance(x[2][1][1], str) for x in a_]
                 if any(joined_):
                     helpers_ = [("joined",) if j_ else h_ for j_, h_ in zip(joined_, helpers_)]
